@@ -38,3 +38,6 @@ pub fn msg_new_request(buffer: &mut [u8], domain_number: u8, sequence_id: u16) -
 pub fn msg_serialize(m: &Msg<'_>, out: &mut [u8]) -> Option<usize> {
     m.0.serialize(out).ok()
 }
+pub fn msg_message<'a, 'b>(m: &'b Msg<'a>) -> &'b Message<'a> {
+    &m.0.message
+}
